@@ -308,18 +308,23 @@ def build_probes():
     exe = os.path.join(boot.WORK, "probe")
     src = os.path.join(os.path.dirname(__file__), "probe.c")
     ok = False
+    tmp = exe + ".%d" % os.getpid()
     try:
-        r = subprocess.run(["clang", "-O1", "-o", exe, src], capture_output=True)
+        r = subprocess.run(["clang", "-O1", "-o", tmp, src], capture_output=True)
         ok = r.returncode == 0
     except OSError:
         ok = False
     if not ok:
-        shutil.copyfile(os.path.join(os.path.dirname(__file__), "probe.py"), exe)
-        os.chmod(exe, 0o755)
+        shutil.copyfile(os.path.join(os.path.dirname(__file__), "probe.py"), tmp)
+        os.chmod(tmp, 0o755)
+    os.replace(tmp, exe)
     for code in range(256):
         p = os.path.join(PROBE_DIR, f"p{code}")
         if not os.path.lexists(p):
-            os.symlink(exe, p)
+            try:
+                os.symlink(exe, p)
+            except FileExistsError:
+                pass
     return ok
 
 
